@@ -155,25 +155,39 @@ pub mod model {
     pub fn pem(kind: u8, bits: u16, id: &[u8; 32]) -> [u8; PEM_LEN] {
         crate::enc_pem(kind, bits, id)
     }
+    /// select the number of leading zero bytes of RSA results (ciphertexts, decrypted plaintexts) for this harness
+    pub fn kem_leading_zeros(enc: usize, dec: usize) {
+        crate::hazmat::set_lz(enc, dec)
+    }
+    /// the RSA-KEM ciphertext of the 512-byte string `r` under `k` as the 512-byte big-endian string the specification means
+    /// (same memo table as `hazmat::rsa_encrypt`)
+    pub fn kem_encrypt_512(k: &crate::RsaPublicKey, r: &[u8; 512]) -> [u8; 512] {
+        crate::hazmat::encrypt_raw(&k.pid, r)
+    }
 }
 
 // ---------------------------------------------------------------------------------------------------- BigUint
 pub const BIG_CAP: usize = 512;
+const LZ_UNKNOWN: usize = usize::MAX;
 /// num-bigint-dig's BigUint as far as paseto-v1 needs it. Two kinds of values:
 ///  * a modulus: only its bit length is known (`known == 0`);
-///  * a value given by bytes (`from_bytes_be`, RSA-KEM results): up to 512 big-endian bytes, `len` significant ones.
+///  * a value given by bytes (`from_bytes_be`, RSA results): `len` big-endian bytes (leading zero bytes included) in `b`.
+///    `lz` is the number of leading zero bytes when it is known BY CONSTRUCTION (RSA results, see `hazmat`: the harness
+///    selects the case, the model assumes the fresh value falls into it) — `to_bytes_be` then has a concrete length for CBMC;
+///    otherwise it is counted from the (symbolic) bytes.
 #[derive(Clone, PartialEq, Eq)]
 pub struct BigUint {
     known: u8,
     nbits: usize,
-    len: usize,          // bytes given to from_bytes_be / width of an RSA result (leading zero bytes included)
+    len: usize,
+    lz: usize,
     b: [u8; BIG_CAP],
 }
 impl BigUint {
     fn modulus(bits: usize) -> Self {
-        BigUint { known: 0, nbits: bits, len: 0, b: [0; BIG_CAP] }
+        BigUint { known: 0, nbits: bits, len: 0, lz: 0, b: [0; BIG_CAP] }
     }
-    /// bit length (exact for moduli; for byte-given values: 8 * minimal byte length, rounded up to whole bytes)
+    /// bit length (exact for moduli; for byte-given values: 8 * minimal byte length, i.e. rounded up to whole bytes)
     pub fn bits(&self) -> usize {
         if self.known == 0 {
             self.nbits
@@ -189,9 +203,12 @@ impl BigUint {
             b[i] = bytes[i];
             i += 1;
         }
-        BigUint { known: 1, nbits: 0, len: bytes.len(), b }
+        BigUint { known: 1, nbits: 0, len: bytes.len(), lz: LZ_UNKNOWN, b }
     }
     fn leading_zero_bytes(&self) -> usize {
+        if self.lz != LZ_UNKNOWN {
+            return self.lz;
+        }
         let mut z = 0;
         let mut all = true;
         let mut i = 0;
@@ -674,7 +691,10 @@ pub mod hazmat {
     //! stripped by `to_bytes_be`): a small table in this crate records (pid, m, c) pairs; a new `rsa_encrypt(pid, m)` returns
     //! the recorded c for a recorded m and otherwise a fresh c different from every recorded c of that key; `rsa_decrypt`
     //! returns the recorded m for a recorded c and otherwise a fresh m different from every recorded m. Results may have
-    //! leading zero bytes. 512-byte values do not fit vmodel-core's uf (KCAP/MCAP), hence the dedicated table.
+    //! leading zero bytes: HOW MANY is selected per harness with `model::kem_leading_zeros(enc, dec)` and assumed of the fresh
+    //! value (so `BigUint::to_bytes_be`, which strips them like num-bigint-dig, has a concrete length; instances with 0 and
+    //! with 1 leading zero byte together cover all but 2^-16 of the values). 512-byte values do not fit vmodel-core's uf
+    //! (KCAP/MCAP), hence the dedicated table.
     use super::*;
     pub const KEM_SLOTS: usize = 3;
     pub const W: usize = 512;
@@ -707,24 +727,21 @@ pub mod hazmat {
         }
         same
     }
-    fn widen(v: &BigUint, width: usize) -> Option<[u8; W]> {
-        // the value as a `width`-byte big-endian string (None if it does not fit)
+    /// the value as a W-byte big-endian string. Values longer than the key width are "[model] capacity" (the real crate
+    /// compares with the modulus; paseto-v1 only passes 512-byte strings to a 4096-bit key).
+    fn widen(v: &BigUint, width: usize) -> [u8; W] {
         assert!(v.known == 1, "[model] capacity: RSA on an abstract value");
-        let z = v.leading_zero_bytes();
-        let sig = v.len - z;
-        if sig > width {
-            return None;
-        }
+        assert!(v.len <= width && width == W, "[model] capacity: raw RSA is modelled for 512-byte values under 4096-bit keys only");
+        let off = W - v.len;
         let mut o = [0u8; W];
         let mut i = 0;
         while i < W {
-            // o[W - 1 - i] = v.b[v.len - 1 - i] for i < sig
-            if i < sig {
-                o[W - 1 - i] = v.b[v.len - 1 - i];
+            if i >= off {
+                o[i] = v.b[i - off];
             }
             i += 1;
         }
-        Some(o)
+        o
     }
     /// forward = true: look up by m, produce c; false: look up by c, produce m
     fn permute(pid: &[u8; 32], x: &[u8; W], forward: bool) -> [u8; W] {
@@ -764,33 +781,39 @@ pub mod hazmat {
             y
         }
     }
-    fn result(y: &[u8; W], width: usize) -> BigUint {
-        // a value of `width` bytes (possibly with leading zero bytes)
-        let mut b = [0u8; BIG_CAP];
+    // Leading zero bytes of the results (ciphertexts of rsa_encrypt / plaintexts of rsa_decrypt): selected by the harness
+    // (`model::kem_leading_zeros`), ASSUMED of the fresh value — so that `to_bytes_be()` of a result has a concrete length.
+    const LZ_MAGIC: usize = 0x6c7a_0000;
+    static mut ENC_LZ: usize = LZ_MAGIC;
+    static mut DEC_LZ: usize = LZ_MAGIC;
+    pub(crate) fn set_lz(enc: usize, dec: usize) {
+        unsafe {
+            ENC_LZ = LZ_MAGIC + enc;
+            DEC_LZ = LZ_MAGIC + dec;
+        }
+    }
+    fn result(y: &[u8; W], lz: usize) -> BigUint {
         let mut i = 0;
-        while i < width {
-            b[i] = y[W - width + i];
+        while i < lz {
+            assume(y[i] == 0);
             i += 1;
         }
-        BigUint { known: 1, nbits: 0, len: width, b }
+        assume(y[lz] != 0);
+        BigUint { known: 1, nbits: 0, len: W, lz, b: *y }
     }
-    /// m^e mod n. Err(MessageTooLong)-like failure when m does not fit the modulus width (the real crate checks m < n; the
-    /// comparison with the abstract modulus itself is not modelled).
+    pub(crate) fn encrypt_raw(pid: &[u8; 32], m: &[u8; W]) -> [u8; W] {
+        let y = permute(pid, m, true);
+        let _ = result(&y, unsafe { ENC_LZ - LZ_MAGIC });
+        y
+    }
+    /// m^e mod n (the real crate's `m < n` check against the abstract modulus is not modelled: every 512-byte string is in the domain)
     pub fn rsa_encrypt<K: PublicKeyParts + AsRef<RsaPublicKey>>(key: &K, m: &BigUint) -> Result<BigUint> {
-        let width = key.size();
-        assert!(width == W, "[model] capacity: raw RSA is modelled for 4096-bit keys only");
-        match widen(m, width) {
-            Some(x) => Ok(result(&permute(&key.as_ref().pid, &x, true), width)),
-            None => Err(Error::MessageTooLong),
-        }
+        let x = widen(m, key.size());
+        Ok(result(&permute(&key.as_ref().pid, &x, true), unsafe { ENC_LZ - LZ_MAGIC }))
     }
-    /// c^d mod n with the real crate's consistency check (which cannot fail for a well-formed key)
+    /// c^d mod n with the real crate's consistency check (which cannot fail for a well-formed key); `c < n` not modelled
     pub fn rsa_decrypt_and_check<R: CryptoRngCore + ?Sized>(priv_key: &RsaPrivateKey, _rng: Option<&mut R>, c: &BigUint) -> Result<BigUint> {
-        let width = priv_key.size();
-        assert!(width == W, "[model] capacity: raw RSA is modelled for 4096-bit keys only");
-        match widen(c, width) {
-            Some(x) => Ok(result(&permute(&priv_key.pid, &x, false), width)),
-            None => Err(Error::Decryption),
-        }
+        let x = widen(c, priv_key.size());
+        Ok(result(&permute(&priv_key.pid, &x, false), unsafe { DEC_LZ - LZ_MAGIC }))
     }
 }
